@@ -8,6 +8,7 @@ import shutil
 import subprocess
 import sys
 import tempfile
+import threading
 import time
 
 ROOT = os.path.dirname(os.path.dirname(os.path.abspath(__file__)))
@@ -82,6 +83,7 @@ class Run:
         self.known_hits = []
         self._bin = {}
         self._tlcn = 0
+        self._lock = threading.Lock()
         with open(os.path.join(ROOT, "known_findings.json")) as f:
             kf = json.load(f)
         self.known = [k for k in kf.get("known", []) if k["property"] == prop]
@@ -147,8 +149,9 @@ class Run:
         """Run TLC on spec/<module>.tla in a private scratch copy.
         cfg: text of the config.  files: extra data files (path, or (name, path)) copied into the
         working directory (trace.ndjson etc)."""
-        self._tlcn += 1
-        wd = os.path.join(self.scratch, "tlc%d" % self._tlcn)
+        with self._lock:
+            self._tlcn += 1
+            wd = os.path.join(self.scratch, "tlc%d" % self._tlcn)
         os.makedirs(wd)
         for fn in os.listdir(SPEC):
             if fn.endswith(".tla"):
